@@ -13,6 +13,7 @@ import DuneVerif.Proofs.C12Lex
 import DuneVerif.Proofs.C12Opt
 import DuneVerif.Proofs.C12R2
 import DuneVerif.Proofs.C12Named
+import DuneVerif.Proofs.C12Float
 
 namespace DV.C12
 
@@ -469,6 +470,43 @@ example : parseRange (extractInt ⟨true, 32⟩) 2 "1 2".toList = some [1, 2] :=
 example : parseRange (extractInt ⟨true, 32⟩) 2 "1".toList = none := by decide
 example : parseRange (extractInt ⟨true, 32⟩) 2 "1 2 3".toList = none := by decide
 example : parseRange (extractInt ⟨true, 32⟩) 2 "1 2 -".toList = none := by decide
+
+/-- **malformed_is_range_error** (floating targets), partial.  Full statement: `get<double>`/`get<float>` succeed iff
+    the text is blanks, one floating literal `[sign] digits* [. digits*] [e|E [sign] digits+]` (at least one mantissa
+    digit), blanks, and the literal's exact decimal value rounds (to nearest, ties to even) to a finite number of the
+    format, which is then returned.  Proved here: the *syntax* direction for every binary format of the model
+    (`binary64`, `binary32`) — success implies that shape, hence empty text, a lone sign or point, `1e`, `1e+`, two
+    numbers, or any other trailing character is the RangeError; and the same for fixed-size ranges item by item.
+    Missing: the converse and the value (`roundToBin` is the model's correctly rounded conversion; it is compared bit
+    for bit with strtod/strtof and with std::from_chars on every run, no theorem is stated about it). -/
+theorem malformed_float_is_range_error_partial (b : BinFmt) (s : Str) (t : Tree) (key : Str) (hs : t.get? key = some s) :
+    (∀ v, t.getAs (parseScalar (extractBin b)) key = .ok v →
+      ∃ pre lit post, s = pre ++ lit ++ post ∧ AllSpace pre ∧ AllSpace post ∧ FloatLit lit) ∧
+    ((¬ ∃ pre lit post, s = pre ++ lit ++ post ∧ AllSpace pre ∧ AllSpace post ∧ FloatLit lit) →
+      t.getAs (parseScalar (extractBin b)) key = .error .range) ∧
+    (∀ n vs, parseRange (extractBin b) n s = some vs →
+      ∃ (pieces : List Str) (post : Str), pieces.length = n ∧ AllSpace post ∧ s = pieces.flatten ++ post ∧
+        ∀ p ∈ pieces, ∃ pre lit, p = pre ++ lit ∧ AllSpace pre ∧ FloatLit lit) := by
+  refine ⟨fun v hv => ?_, fun hno => ?_, fun n vs h => parseRange_bin_syntax b n s vs h⟩
+  · simp only [Tree.getAs, hs] at hv
+    cases hp : parseScalar (extractBin b) s with
+    | none => rw [hp] at hv; cases hv
+    | some w => exact parseBin_syntax b s w hp
+  · simp only [Tree.getAs, hs]
+    cases hp : parseScalar (extractBin b) s with
+    | none => rfl
+    | some w => exact absurd (parseBin_syntax b s w hp) hno
+
+example : parseDouble " -1.5e3 ".toList = some 0xC097700000000000 := by decide
+example : parseDouble "1e".toList = none ∧ parseDouble ".".toList = none ∧ parseDouble "1.5 2".toList = none ∧
+    parseDouble "".toList = none ∧ parseDouble "1e400".toList = none := by decide
+example : parseFloat "16777217".toList = some 0x4B800000 ∧ parseFloat "3.4028236e38".toList = none := by decide
+example : FloatLit "-1.5e3".toList :=
+  have d : ∀ ch : Char, isDig ch = true → AllDig [ch] := fun ch h c hc => by
+    simp only [List.mem_singleton] at hc; subst hc; exact h
+  ⟨"-".toList, "1".toList, ".5".toList, "e3".toList, by decide, Or.inr (Or.inr rfl), d '1' (by decide),
+   Or.inr ⟨"5".toList, rfl, d '5' (by decide)⟩, Or.inl (by decide),
+   Or.inr ⟨'e', [], "3".toList, rfl, Or.inl rfl, Or.inl rfl, by decide, d '3' (by decide)⟩⟩
 
 /-- variable-size sequences, bitsets, strings: the text is split into its maximal runs of non-blank characters
     (blank set `" \t\n\r"`; `WordsOf` is the declarative definition, independent of the splitting loop); a vector
